@@ -361,6 +361,91 @@ def r3_exits(rule, root=None):
         rule.bad("shapes", "the Jacobian must be equations x free parameters and the residual one per equation", A.where(solve))
 
 
+def r4_lm_step(rule, root=None):
+    """the Levenberg-Marquardt step: with Jacobian J and residual r the step solves (J^T J + damping D) delta = J^T r
+    (D = diag(J^T J) or the identity) and is *subtracted*; damping grows when the trial error rose and shrinks when
+    the step is accepted.  The lets of `solve` are interpreted on symbolic 2 x 2 matrices (fv/qef.py's nalgebra model)."""
+    import sympy as sp
+
+    from .. import qef as QF
+
+    solve = A.find_fn(SOL, "solve", root=root)
+    J = sp.Matrix(2, 2, lambda i, j: sp.Symbol("J%d%d" % (i, j), real=True))
+    r = sp.Matrix([sp.Symbol("r0", real=True), sp.Symbol("r1", real=True)])
+    lam = sp.Symbol("damping", positive=True)
+    it = QF.MInterp({"jacobian": J, "result": r, "damping": lam, "#n": 2})
+    solves = []
+    for s in A.find(solve["body"], "Let"):
+        if s.get("init") is None or A.binding_name(s["pat"]) in ("jacobian", "result", "damping"):
+            continue  # the working arrays and the damping stay the symbols they were given
+        try:
+            it.solve_args = None
+            it.svd_of = None
+            v = it.ev(s["init"])
+            if it.solve_args is not None:
+                solves.append((it.svd_of, it.solve_args[0], s))
+        except (QF.Stop, Exception):  # noqa: BLE001
+            v = QF.Opaque("not modelled")
+        try:
+            it.bind(s["pat"], v)
+        except Exception:  # noqa: BLE001
+            pass
+    if not solves:
+        rule.skip("solve: the linear system of the step", "no `<matrix>.svd(..).solve(rhs, eps)` reached by the let interpreter", count=True)
+    else:
+        lhs, rhs, node = solves[0]
+        JtJ, Jtr = J.T * J, J.T * r
+        ok_l = isinstance(lhs, sp.MatrixBase) and (QF._zero(lhs - (JtJ + lam * sp.diag(JtJ[0, 0], JtJ[1, 1]))) or QF._zero(lhs - (JtJ + lam * sp.eye(2))))
+        if ok_l:
+            rule.ok("the step's matrix is J^T J + damping * D", file=SOL, line=node["ln"])
+        else:
+            rule.bad("lm|matrix", "the step solves with `%s`; Levenberg-Marquardt needs J^T J + damping * diag(J^T J)" % (sp.simplify(lhs) if isinstance(lhs, sp.MatrixBase) else lhs,), A.where(SOL, node))
+        if isinstance(rhs, sp.MatrixBase) and QF._zero(rhs - Jtr):
+            rule.ok("the step's right-hand side is J^T r (and the step is subtracted: C19.R3)", file=SOL, line=node["ln"])
+        else:
+            rule.bad("lm|rhs", "the step's right-hand side is `%s`; it must be J^T r, the gradient of the squared residual" % (sp.simplify(rhs).T if isinstance(rhs, sp.MatrixBase) else rhs,), A.where(SOL, node))
+    # damping schedule
+    ifs = []
+    for n in A.find(solve["body"], "If"):
+        c = A.strip(n["cond"])
+        if c.get("k") == "Binary" and c.get("op") in (">", "<", ">=", "<="):
+            l_, r_ = txt(c["left"]), txt(c["right"])
+            if {l_, r_} == {"err", "prev_err"}:
+                ifs.append((n, c, l_, r_))
+    if not ifs:
+        rule.skip("solve: damping schedule", "no comparison of the trial error with the previous error found", count=True)
+        return
+    n, c, l_, r_ = ifs[0]
+    rose_then = (c["op"] in (">", ">=") and l_ == "err") or (c["op"] in ("<", "<=") and l_ == "prev_err")
+    rose, accepted = (n["then"], n.get("else")) if rose_then else (n.get("else"), n["then"])
+
+    def factor(block):
+        """net factor applied to `damping` in a block (None: not a pure scaling)"""
+        if block is None:
+            return None
+        f = None
+        for b in A.find(block, "Binary"):
+            if b.get("op") in ("*=", "/=") and txt(b["left"]) == "damping":
+                v = A.lit_value(A.strip(b["right"]))
+                if v is None:
+                    return None
+                f = (f or 1.0) * (float(v) if b["op"] == "*=" else 1.0 / float(v))
+        return f
+
+    fr, fa = factor(rose), factor(accepted)
+    if fr is None or fr <= 1.0:
+        rule.bad("lm|damping|rose", "when the trial error rose the damping must grow (smaller, more gradient-like steps); here it is scaled by %s" % fr, A.where(SOL, n))
+    else:
+        rule.ok("a worse trial step raises the damping (x %.3g) and retries" % fr, file=SOL, line=n["ln"])
+    brk = list(A.find(accepted, "Break")) if accepted is not None else []
+    if fa is None or fa >= 1.0 or not brk:
+        rule.bad("lm|damping|accepted", "an accepted step must lower the damping and leave the retry loop with that step; here damping is scaled by %s%s" % (fa, "" if brk else " and the loop is not left"), A.where(SOL, n))
+    else:
+        rule.ok("an accepted step lowers the damping (x %.3g) and is the one taken" % fa, file=SOL, line=n["ln"])
+    if list(A.find(rose, "Break")) if rose is not None else False:
+        rule.bad("lm|damping|leave", "the retry loop is left although the trial error rose", A.where(SOL, n))
+
+
 def run(ctx):
     r = ctx.rule("R1", "only free parameters get a gradient slot and a result; fixed ones are constants at their value", 7)
     ctx.guarded(r, r1_free_fixed)
@@ -368,3 +453,5 @@ def run(ctx):
     ctx.guarded(r, r2_packing)
     r = ctx.rule("R3", "exits and updates: zero residual ends before any change; no free parameter never reads an empty batch", 5)
     ctx.guarded(r, r3_exits)
+    r = ctx.rule("R4", "Levenberg-Marquardt step: (J^T J + damping D) delta = J^T r on symbolic matrices; damping grows on a worse trial and shrinks on an accepted one", 4)
+    ctx.guarded(r, r4_lm_step)
